@@ -35,6 +35,9 @@ def _job(a):
     if kind == "AST":
         from . import c01_ast
         return c01_ast.job((c, sh))
+    if kind == "TV":
+        from . import c01_tv
+        return c01_tv.job((c, sh))
     if kind == "cross":
         from ..bounded import Budget, time_budget
         try:
@@ -96,7 +99,23 @@ def run(tier, only=None):
         la = [("AST", k, arg) for (k, arg) in c01_ast.jobs(tier)]
         rep.under_contract(ConstantFolder.visit_Compare, ConstantFolder.visit_BinOp, ConstantFolder.visit_UnaryOp, ConstantFolder.visit_If, ConstantFolder.visit_IfExp,
                            ConstantFolder.visit_Call, ConstantFolder.visit_Subscript)
-    rs = run_pool(_job, jobs + canaries + cross, chunksize=4) + run_pool(_job, la, chunksize=1) + run_pool(_job, l3, chunksize=2)
+    lt = []
+    if not only or only in ("T", "TV"):
+        from . import c01_l3
+        from qlasskit.ast2ast import ast2ast
+        from qlasskit.ast2ast.astrewriter import ASTRewriter
+        from qlasskit.ast2ast.replacemultitargetassign import ReplaceMultiTargetAssign
+        lt = [("TV", o, src) for (o, src) in c01_l3.family(tier) if o != "outside"]
+        rep.under_contract(ast2ast, ASTRewriter.visit_For, ASTRewriter.visit_If, ASTRewriter.visit_Assign, ASTRewriter.visit_AugAssign, ASTRewriter.visit_Call,
+                           ASTRewriter.visit_Subscript, ReplaceMultiTargetAssign.visit_Assign)
+    rs = run_pool(_job, jobs + canaries + cross, chunksize=4) + run_pool(_job, la, chunksize=1) + run_pool(_job, lt, chunksize=2) + run_pool(_job, l3, chunksize=2)
+    tv_skipped = [r for r in rs if r.get("strength") == "aux" and r.get("backend") == "pyvc" and "why" in r]
+    rs = [r for r in rs if r not in tv_skipped]
+    if lt:
+        import collections
+        why = collections.Counter(r["why"].split(":")[0][:70] for r in tv_skipped)
+        rep.extra["layer_T"] = dict(programs=len(lt), not_attempted=len(tv_skipped), not_attempted_reasons=dict(why.most_common(12)),
+                                    note="programs outside pyvc's symbolic subset or rejected by ast2ast are not attempted and never counted")
     main = [r for r in rs if r.get("strength") != "aux"]
     aux = [r["aux"] for r in rs if r.get("strength") == "aux" and r["name"] == "canary"]
     crs = [r["aux"] for r in rs if r.get("strength") == "aux" and r["name"] == "cross"]
